@@ -1,4 +1,5 @@
 import MV.Driver.Stream
+import MV.Driver.Graph
 open MV
 
 /-- ops whose handler models panics itself -/
@@ -7,7 +8,9 @@ def panicAware : List String := []
 def dispatchOp (ins outs : List J) : Verdict :=
   match ins with
   | .atom "st" :: rest => Stream.handle rest outs
-  | .atom op :: _ => .badOp s!"unknown op {op}"
+  | .atom op :: rest =>
+    if Graph.ops.contains op then Graph.handle op rest outs
+    else .badOp s!"unknown op {op}"
   | _ => .badOp "empty line"
 
 def dispatch (ts : List J) : Verdict :=
